@@ -190,6 +190,13 @@ func TestC17(t *testing.T) {
 				max = 4
 			}
 			sc.Faults = []FaultSpec{drawFault(rt, fam, max, rapid.IntRange(0, 9).Draw(rt, "stallOK") == 0)}
+			// The property names "transport errors whose messages embed the
+			// request URL": in half of the HTTP scenarios with a fault the
+			// connection is closed on one of the first requests (key
+			// generation / session creation carry the password).
+			if (fam == "panos" || fam == "nsx") && rapid.Bool().Draw(rt, "transportEarly") {
+				sc.Faults = []FaultSpec{{Pos: rapid.SampledFrom([]int{0, 0, 0, 1, 2}).Draw(rt, "transportPos"), Kind: "close"}}
+			}
 		}
 		c := sc.Case("C17")
 		props.Judge(rt, ev, oracleC17, c, func() any { return sc })
